@@ -696,7 +696,8 @@ def alias_check(ctx):
     agg = enum_chains(ctx, 3, ["plain", "then", "else"], maxdeco=1, tag="aggphi", fams=["field"])
     AGG = {"ST", "SP", "PR", "AR"}
     agg = sorted({tuple(c) for c in agg
-                  if any(d != "plain" and semgen.STEPS[s_][1] in AGG and j < len(c) - 1 for j, (s_, d) in enumerate(c))
+                  if (any(d != "plain" and semgen.STEPS[s_][1] in AGG and j < len(c) - 1 for j, (s_, d) in enumerate(c))
+                      or any(s_ == "wrapphi" and j < len(c) - 1 for j, (s_, d) in enumerate(c)))
                   and any(semgen.STEPS[s_][1] in semgen.PROBEABLE for s_, _ in c)} - set(chains))
     if not thorough:
         random.Random(ctx.seed + 5).shuffle(agg)
